@@ -355,7 +355,7 @@ class OneCell(Sub):
             'values give (differential against the scalar evaluation of the same parser); non-trivial = all')
     min_cases = 100
     min_nontrivial = 100
-    VALS = [-1, 0, 2.5, D(2019, 11, 20), '', '1', 'a', 'B', True, False, None, 43789]
+    VALS = [-1, 0, 2.5, D(2019, 11, 20), '', '1', 'a', 'B', True, False, None, 43789, {'$err': '#DIV/0!'}, {'$err': '#N/A'}]       # an error in the cell is the outcome
 
     def cases(self, tier, unit):
         for i in range(len(self.VALS)):
